@@ -92,7 +92,7 @@ func hasCRLF(s []byte) bool {
 // canonical text of a reply (same format as harness/mem.go)
 func canonReply(r resp.RedisData) string {
 	if r == nil {
-		return "!NILRESULT"
+		return "-E" // Manager.Handle answers a nil result with an "unknown error" reply
 	}
 	switch t := r.(type) {
 	case *resp.StringData:
@@ -765,6 +765,60 @@ func runPhase(ph phase, outdir string, tcp bool) (status string, err error) {
 	return status, nil
 }
 
+// run the phase's commands sequentially (round-robin over the threads) on a fresh server; a
+// command that panics is recorded by name and the server replaced
+func screenPhase(ph phase, outdir string, skip map[string]bool) map[string]string {
+	bad := map[string]string{}
+	dir := filepath.Join(outdir, ph.name+".screen")
+	os.MkdirAll(dir, 0o755)
+	cfg := setupServer(dir)
+	mgr := server.NewManager(cfg)
+	run := func(c command) {
+		name := strings.ToLower(c[0])
+		if skip[name] || bad[name] != "" || name == "blpop" || name == "brpop" {
+			return
+		}
+		done := make(chan string, 1)
+		go func() { done <- execQuiet(mgr, toBytes(c)) }()
+		select {
+		case out := <-done:
+			if out == "!PANIC" {
+				bad[name] = hexArgs(c)
+				mgr = server.NewManager(cfg)
+			}
+		case <-time.After(10 * time.Second):
+			bad[name] = "HANG:" + hexArgs(c)
+			mgr = server.NewManager(cfg)
+		}
+	}
+	for _, c := range ph.setup {
+		run(c)
+	}
+	for i := 0; ; i++ {
+		any := false
+		for t := range ph.threads {
+			if i < len(ph.threads[t]) {
+				any = true
+				run(ph.threads[t][i])
+			}
+		}
+		if !any {
+			break
+		}
+	}
+	return bad
+}
+
+func execQuiet(mgr *server.Manager, cmd [][]byte) (out string) {
+	defer func() {
+		if e := recover(); e != nil {
+			out = "!PANIC"
+		}
+	}()
+	mgr.ExecCommand(context.Background(), cmd, nil)
+	return "ok"
+}
+
 // ---------------------------------------------------------------- TCP variant
 
 // every worker talks RESP over its own loopback connection to Manager.Handle, exactly as a
@@ -924,9 +978,32 @@ func concCmd(args []string) error {
 	}
 	defer sf.Close()
 	hang := false
+	skip := map[string]bool{}
+	for _, n := range strings.Split(os.Getenv("VERIF_CONC_SKIP"), ",") {
+		if n != "" {
+			skip[strings.ToLower(n)] = true
+		}
+	}
 	for _, ph := range phases {
 		if len(want) > 0 && !want[ph.name] {
 			continue
+		}
+		// commands that already panic when the very same program is run by ONE goroutine have a
+		// sequential defect (other properties); they are reported and left out of the mix, so that
+		// what remains can only fail because of concurrency
+		for name, ex := range screenPhase(ph, outdir, skip) {
+			skip[name] = true
+			fmt.Fprintf(sf, "SCREENED %s %s\n", name, ex)
+		}
+		// (and so are commands with an open, listed locking finding)
+		for t := range ph.threads {
+			kept := ph.threads[t][:0]
+			for _, c := range ph.threads[t] {
+				if !skip[strings.ToLower(c[0])] {
+					kept = append(kept, c)
+				}
+			}
+			ph.threads[t] = kept
 		}
 		ph.yield = 3
 		ph.watchdog = 40 * time.Second
@@ -937,7 +1014,7 @@ func concCmd(args []string) error {
 		if err != nil {
 			return err
 		}
-		fmt.Fprintf(sf, "%s %s\n", ph.name, st)
+		fmt.Fprintf(sf, "PHASE %s %s\n", ph.name, st)
 		if st != "OK" {
 			hang = true
 			break // the process still holds the stuck goroutines: stop here
